@@ -18,6 +18,12 @@ FIRST_MISSED = {
     "C09e": "missed at first; caught after the driver used agents whose truth value is False",
     "C12e": "missed at first; caught after frame cells were required to be the very same value and type (Decimal, Fraction, big ints, ...)",
     "C16e": "missed at first; caught after hierarchies with observables on mixins placed after HasObservables in the MRO",
+    "C05f": "missed at first; caught after models were pickled / deep-copied mid-history and stepping continued on the restored instance",
+    "C06f": "missed at first by C06 (C11 caught it); caught after read-only property-layer queries were interleaved in the cell-space histories",
+    "C08f": "missed at first by C08 (C11 caught it); caught after read-only select_cells / mask queries were interleaved in the layered legacy-grid histories",
+    "C09f": "missed at first; caught after NetworkGrid cell lists were passed as one-shot iterables (generator, iter, map)",
+    "C19f": "missed at first; caught after random draws on both sides of a copy with the generator states of every side compared",
+    "C20f": "missed at first; caught after ax-less draws were repeated with figures left open",
     "C20e": "missed at first; caught after redraws reused the same portrayal dict objects across layer writes",
 }
 for d in sorted(glob.glob(os.path.join(VERIF, "seeded", "*", ""))):
